@@ -210,6 +210,9 @@ fn observe(tables: &TableHandle, ctx: &Arc<std::sync::Mutex<PeerContext>>, addr:
                 packet::Nlri::V6(n) => n.addr.segments()[2] as u8,
                 _ => 255,
             };
+            if pfx == SENTINEL {
+                continue;
+            }
             for p in d.paths {
                 let tag = p
                     .attr
@@ -311,7 +314,7 @@ fn classify(how: DropHow, negotiated_any: bool, nbit: bool) -> (DropClass, &'sta
         DropHow::Notif(4, _) | DropHow::HoldTimer => {
             if nbit { (DropClass::Either, "hold-timer-nbit") } else { (DropClass::MustNot, "notification-no-nbit") }
         }
-        DropHow::Notif(_, _) | DropHow::Garbage => (DropClass::MustNot, "non-cease-error"),
+        DropHow::Notif(_, _) | DropHow::Garbage => (DropClass::MustNot, if nbit { "non-cease-error-nbit" } else { "non-cease-error" }),
         DropHow::ApiShutdown | DropHow::ApiReset | DropHow::ApiSilent => (DropClass::MustNot, "admin-shutdown"),
     };
     if negotiated_any { (c, l) } else { (DropClass::Plain, l) }
@@ -831,6 +834,31 @@ fn reason_of(how: DropHow) -> crate::fsm::SessionDownReason {
     }
 }
 
+/// How the L1 executor reproduces the two pieces of glue it cannot call on
+/// their own (they live inside `PeerSession::session_loop` / `run`, which need a
+/// live TCP stream): the table calls of the session_loop tail and what `run`
+/// does for a connection that never reached Established.  `calibrate()` picks,
+/// at start-up, the variant whose observable behaviour equals that of the real
+/// code (L2) on a few probe histories, so the replica cannot silently drift
+/// from the code under test; if no variant matches, L1 is not run (inconclusive).
+#[derive(Clone, Copy, PartialEq, Debug)]
+struct Replica {
+    /// eligibility (gr_on_disconnect) is decided before the table calls and only
+    /// eligible GR / LLGR families are kept (HEAD: all negotiated families are kept)
+    elig_first: bool,
+    /// kept LLGR-only families are marked stale as well (HEAD: only GR families)
+    llgr_stale: bool,
+    /// a connection that never reached Established does not go through apply_disconnect
+    fail_noop: bool,
+}
+
+static REPLICA: std::sync::atomic::AtomicU8 = std::sync::atomic::AtomicU8::new(0);
+
+fn replica() -> Replica {
+    let v = REPLICA.load(std::sync::atomic::Ordering::Relaxed);
+    Replica { elig_first: v & 1 != 0, llgr_stale: v & 2 != 0, fail_noop: v & 4 != 0 }
+}
+
 /// One step of a history as executed: None = the op was not applicable in the current state.
 type StepResult = Result<Option<Ev>, HErr>;
 
@@ -925,7 +953,12 @@ impl L1World {
                         negotiated_llgr: None,
                     };
                     drop(sess);
-                    apply_disconnect(&self.ctx, self.addr, &self.tables, info).await;
+                    if replica().fail_noop {
+                        let c = self.ctx.lock().unwrap();
+                        let _ = c.conn_arbiter.lock().unwrap().process(info.role, crate::fsm::Input::Disconnected);
+                    } else {
+                        apply_disconnect(&self.ctx, self.addr, &self.tables, info).await;
+                    }
                     return Ok(Some(Ev::ReconnectFail { after_open: *outcome == ConnOutcome::DieAfterOpen }));
                 }
                 // what apply_outputs does for Output::SessionNegotiated / SessionEstablished
@@ -1002,9 +1035,26 @@ impl L1World {
                 let L1Live { mut sess, .. } = self.live.take().unwrap();
                 let shutdown_reason = Some(reason_of(*how));
                 // ---- tail of session_loop, same calls in the same order
+                let mode = replica();
+                let raw_gr = sess.negotiated_gr.take();
+                let raw_llgr = sess.negotiated_llgr.take();
+                let elig_gr = raw_gr.clone().and_then(|gr| gr_on_disconnect(&shutdown_reason, gr));
+                let llgr_eligible = elig_gr.is_some() || matches!(shutdown_reason, None | Some(crate::fsm::SessionDownReason::IoError));
                 if !sess.source.is_empty() {
-                    let drop_families = families_to_drop_on_disconnect(sess.source.keys(), sess.negotiated_gr.as_ref(), sess.negotiated_llgr.as_ref());
-                    let stale_families: Vec<Family> = sess.negotiated_gr.as_ref().map(|g| g.families.clone()).unwrap_or_default();
+                    let (keep_gr, keep_llgr) = if mode.elig_first {
+                        (elig_gr.as_ref(), if llgr_eligible { raw_llgr.as_ref() } else { None })
+                    } else {
+                        (raw_gr.as_ref(), raw_llgr.as_ref())
+                    };
+                    let drop_families = families_to_drop_on_disconnect(sess.source.keys(), keep_gr, keep_llgr);
+                    let mut stale_families: Vec<Family> = keep_gr.map(|g| g.families.clone()).unwrap_or_default();
+                    if mode.llgr_stale && let Some(l) = keep_llgr {
+                        for (f, _) in &l.families {
+                            if !stale_families.contains(f) {
+                                stale_families.push(*f);
+                            }
+                        }
+                    }
                     let any_source = sess.source.values().next().unwrap().clone();
                     let bmp_reason = crate::bmp::session_down_to_bmp(shutdown_reason.clone());
                     sess.peer_event_rx = None;
@@ -1017,17 +1067,13 @@ impl L1World {
                         reason: bmp_reason,
                     });
                 }
-                let mut info = DisconnectInfo {
+                let info = DisconnectInfo {
                     role: sess.role,
                     remote_addr: self.addr,
                     export_map: std::mem::take(&mut sess.export_map),
-                    negotiated_gr: None,
-                    negotiated_llgr: None,
+                    negotiated_gr: elig_gr,
+                    negotiated_llgr: if llgr_eligible { raw_llgr } else { None },
                 };
-                info.negotiated_gr = sess.negotiated_gr.take().and_then(|gr| gr_on_disconnect(&shutdown_reason, gr));
-                if info.negotiated_gr.is_some() || matches!(shutdown_reason, None | Some(crate::fsm::SessionDownReason::IoError)) {
-                    info.negotiated_llgr = sess.negotiated_llgr.take();
-                }
                 drop(sess);
                 // ---- PeerSession::run
                 apply_disconnect(&self.ctx, self.addr, &self.tables, info).await;
@@ -1150,13 +1196,68 @@ impl L2Live {
     }
 
     /// Everything sent before this call has been processed by the session task
-    /// when it returns: ROUTE-REFRESH is answered with an End-of-RIB marker, and
-    /// the session task handles messages strictly in order.
-    async fn barrier(&mut self) -> Result<(), HErr> {
-        let i = (0..2).find(|i| has(self.fams, *i)).unwrap();
-        let n0 = self.eors[i];
-        self.send(&bgp::Message::RouteRefresh { family: FAMS[i] }).await?;
-        self.read_until(move |l| l.eors[i] > n0, "End-of-RIB answering the ROUTE-REFRESH barrier").await
+    /// when it returns.  The session task handles messages strictly in order
+    /// (rx_msg is awaited per message), so a sentinel prefix announced after
+    /// them is in the RIB only once they are done; it is then withdrawn again.
+    /// (ROUTE-REFRESH cannot serve as the barrier: with an empty Loc-RIB the
+    /// answering End-of-RIB is not flushed before the next KEEPALIVE.)
+    /// The sentinel (prefix index 200) is excluded from every observation.
+    async fn barrier(&mut self, tables: &TableHandle, addr: IpAddr) -> Result<(), HErr> {
+        let fi = if has(self.fams, 1) { 1 } else { 0 };
+        let entries = vec![packet::PathNlri::new(nlri(fi, SENTINEL))];
+        let reach = bgp::Message::Update(bgp::Update::Reach {
+            family: FAMS[fi],
+            entries: entries.clone(),
+            nexthop: Some(nexthop(fi)),
+            attr: mk_attrs(self.epoch * 1000 + 999, AttrKind::Plain),
+        });
+        self.send(&reach).await?;
+        poll_sentinel(tables, addr, fi, true).await?;
+        self.send(&bgp::Message::Update(bgp::Update::Unreach { family: FAMS[fi], entries })).await?;
+        poll_sentinel(tables, addr, fi, false).await?;
+        // keep the receive side drained
+        loop {
+            match self.client.try_read_buf(&mut self.rxbuf) {
+                Ok(0) => return Err(HErr::Io("EOF at a barrier".into())),
+                Ok(_) => {}
+                Err(_) => break,
+            }
+        }
+        loop {
+            match self.codec.try_parse(&mut self.rxbuf) {
+                Ok(Some(m)) => self.fold(m),
+                _ => break,
+            }
+        }
+        Ok(())
+    }
+}
+
+const SENTINEL: u8 = 200;
+
+fn sentinel_present(tables: &TableHandle, addr: IpAddr, fi: usize) -> bool {
+    tables
+        .collect_paths(table::TableQuery::AdjIn(addr), FAMS[fi], vec![table::PrefixFilter { prefix: nlri(fi, SENTINEL), lookup_type: table::LookupType::Exact }], true)
+        .iter()
+        .any(|d| !d.paths.is_empty())
+}
+
+async fn poll_sentinel(tables: &TableHandle, addr: IpAddr, fi: usize, want: bool) -> Result<(), HErr> {
+    let deadline = std::time::Instant::now() + IO_WAIT;
+    let mut i = 0u32;
+    loop {
+        if sentinel_present(tables, addr, fi) == want {
+            return Ok(());
+        }
+        if std::time::Instant::now() > deadline {
+            return Err(HErr::Watchdog(format!("barrier: sentinel prefix did not become {}", if want { "present" } else { "absent" })));
+        }
+        if i < 200 {
+            tokio::task::yield_now().await;
+        } else {
+            tokio::time::sleep(std::time::Duration::from_millis(1)).await;
+        }
+        i += 1;
     }
 }
 
@@ -1262,7 +1363,9 @@ impl<'a> L2World<'a> {
         let client = TcpStream::connect(la).await.map_err(|e| HErr::Io(format!("connect: {}", e)))?;
         let (server, _) = self.listener.accept().await.map_err(|e| HErr::Io(format!("accept: {}", e)))?;
         // close with RST: no TIME_WAIT sockets pile up over thousands of sessions
+        #[allow(deprecated)]
         let _ = client.set_linger(Some(std::time::Duration::ZERO));
+        #[allow(deprecated)]
         let _ = server.set_linger(Some(std::time::Duration::ZERO));
         let _ = client.set_nodelay(true);
         let sess = accept_connection(&self.global, &self.tables, server, crate::fsm::Role::Passive)
@@ -1334,7 +1437,7 @@ impl<'a> L2World<'a> {
                         // process_effects(GrSessionEstablished) has run as well
                         let fams = l.fams;
                         l.read_until(move |l| (0..2).all(|i| !has(fams, i) || l.eors[i] > 0), "initial End-of-RIB markers").await?;
-                        l.barrier().await?;
+                        l.barrier(&self.tables, self.addr).await?;
                         self.epochs += 1;
                         l.epoch = self.epochs;
                         self.live = Some(l);
@@ -1356,7 +1459,7 @@ impl<'a> L2World<'a> {
                     attr: mk_attrs(tag, *kind),
                 });
                 l.send(&msg).await?;
-                l.barrier().await?;
+                l.barrier(&self.tables, self.addr).await?;
                 Ok(Some(Ev::Announced { fam: *fam, pfx: *pfx, tag, kind: *kind }))
             }
             Op::Withdraw { fam, pfx } => {
@@ -1366,7 +1469,7 @@ impl<'a> L2World<'a> {
                 }
                 let msg = bgp::Message::Update(bgp::Update::Unreach { family: FAMS[*fam], entries: vec![packet::PathNlri::new(nlri(*fam, *pfx))] });
                 l.send(&msg).await?;
-                l.barrier().await?;
+                l.barrier(&self.tables, self.addr).await?;
                 Ok(Some(Ev::Withdrawn { fam: *fam, pfx: *pfx }))
             }
             Op::Eor { fam } => {
@@ -1375,7 +1478,7 @@ impl<'a> L2World<'a> {
                     return Ok(None);
                 }
                 l.send(&bgp::Message::eor(FAMS[*fam])).await?;
-                l.barrier().await?;
+                l.barrier(&self.tables, self.addr).await?;
                 Ok(Some(Ev::Eor { fam: *fam }))
             }
             Op::Drop { how } => {
@@ -1639,6 +1742,50 @@ fn gen_kind(rng: &mut Rng) -> AttrKind {
     }
 }
 
+/// Directed skeleton: a full GR -> LLGR -> reconnect -> End-of-RIB cycle with
+/// re-announcements (some carrying LLGR_STALE / NO_LLGR), random extras in between.
+fn gen_llgr_cycle(rng: &mut Rng, layer: u8) -> (LocalCfg, Vec<Op>) {
+    let cfg = LocalCfg { gr: 0b11, nbit: rng.bool(), llgr: *rng.pick(&[0b11u8, 0b11, 0b10, 0b01]), shards: *rng.pick(&[1usize, 2, 4]), prefix_limit: false };
+    let spec = CapSpec { mp: 0b11, gr: Some((0b11, rng.bool(), 0b11)), llgr: *rng.pick(&[0b11u8, 0b11, 0b10, 0b01]) };
+    let mut ops = vec![Op::Connect { spec, outcome: ConnOutcome::Full }];
+    for f in 0..2 {
+        for p in 0..2u8 {
+            ops.push(Op::Announce { fam: f, pfx: p, kind: gen_kind(rng) });
+        }
+        ops.push(Op::Eor { fam: f });
+    }
+    ops.push(Op::Drop { how: if rng.chance(3, 4) { DropHow::TcpRst } else { DropHow::TcpFin } });
+    if rng.chance(1, 4) {
+        ops.push(Op::Connect { spec, outcome: if rng.bool() { ConnOutcome::DieBeforeOpen } else { ConnOutcome::DieAfterOpen } });
+    }
+    if rng.chance(4, 5) {
+        ops.push(Op::FireRestart);
+    }
+    if rng.chance(1, 4) {
+        ops.push(Op::FireLlgr { fam: rng.usize(2) });
+    }
+    if rng.chance(1, 5) {
+        ops.push(Op::Connect { spec, outcome: ConnOutcome::DieAfterOpen });
+    }
+    let spec2 = if rng.chance(2, 3) { spec } else { gen_spec(rng, None) };
+    ops.push(Op::Connect { spec: spec2, outcome: ConnOutcome::Full });
+    for _ in 0..rng.range(1, 4) {
+        ops.push(Op::Announce { fam: rng.usize(2), pfx: rng.below(3) as u8, kind: gen_kind(rng) });
+    }
+    let mut fams = [0usize, 1];
+    rng.shuffle(&mut fams);
+    for f in fams {
+        if rng.chance(4, 5) {
+            ops.push(Op::Eor { fam: f });
+        }
+    }
+    if rng.chance(1, 2) {
+        ops.push(Op::Drop { how: gen_drop(rng, layer) });
+        ops.push(Op::FireRestart);
+    }
+    (cfg, ops)
+}
+
 fn gen_ops(rng: &mut Rng, layer: u8, len: usize) -> Vec<Op> {
     let mut ops = Vec::new();
     let first = gen_spec(rng, None);
@@ -1878,50 +2025,116 @@ fn evaluate(ctl: &Ctl, rep: &mut Report, layer: u8, cfg: &LocalCfg, ops: &[Op], 
     (tail_applied, true)
 }
 
+/// Pick the L1 replica variant that behaves like the real session_loop / run (see `Replica`).
+fn calibrate(ctl: &Ctl, rep: &mut Report) -> bool {
+    let c = |gr, nbit, llgr| LocalCfg { gr, nbit, llgr, shards: 1, prefix_limit: false };
+    let s_gr = CapSpec { mp: 0b11, gr: Some((0b11, false, 0)), llgr: 0 };
+    let s_mix = CapSpec { mp: 0b11, gr: Some((0b01, true, 0)), llgr: 0b11 };
+    let ann = |v: &mut Vec<Op>| {
+        v.push(Op::Announce { fam: 0, pfx: 0, kind: AttrKind::Plain });
+        v.push(Op::Announce { fam: 1, pfx: 0, kind: AttrKind::NoLlgr });
+    };
+    let mut probes: Vec<(LocalCfg, Vec<Op>)> = Vec::new();
+    for how in [DropHow::Notif(6, 9), DropHow::Notif(6, 4), DropHow::ApiShutdown, DropHow::TcpRst, DropHow::Garbage] {
+        for (cfg, spec) in [(c(0b11, false, 0), s_gr), (c(0b01, true, 0b11), s_mix)] {
+            let mut v = vec![Op::Connect { spec, outcome: ConnOutcome::Full }];
+            ann(&mut v);
+            v.push(Op::Drop { how });
+            v.push(Op::Connect { spec, outcome: ConnOutcome::DieAfterOpen });
+            v.push(Op::Connect { spec, outcome: ConnOutcome::DieBeforeOpen });
+            v.push(Op::FireRestart);
+            probes.push((cfg, v));
+        }
+    }
+    let mut real: Vec<Vec<String>> = Vec::new();
+    for (cfg, ops) in &probes {
+        match exec(ctl, 2, cfg, ops, 7, true) {
+            Ok(o) if o.herr.is_none() => real.push(o.trace),
+            Ok(o) => {
+                rep.inconclusive(&format!("calibration: L2 probe failed: {:?}", o.herr));
+                return false;
+            }
+            Err(p) => {
+                rep.inconclusive(&format!("calibration: L2 probe panicked at {}", p.location));
+                return false;
+            }
+        }
+    }
+    for cand in 0u8..8 {
+        REPLICA.store(cand, std::sync::atomic::Ordering::Relaxed);
+        let ok = probes.iter().zip(real.iter()).all(|((cfg, ops), want)| match exec(ctl, 1, cfg, ops, 7, true) {
+            Ok(o) => o.herr.is_none() && &o.trace == want,
+            Err(_) => false,
+        });
+        if ok {
+            rep.count(&format!("calibration:replica-variant-{}", cand));
+            rep.extra("l1_replica", Json::s(format!("{:?}", replica())));
+            return true;
+        }
+    }
+    REPLICA.store(0, std::sync::atomic::Ordering::Relaxed);
+    rep.inconclusive("calibration: no L1 replica variant of the session_loop tail / run glue behaves like the real code (L2); the L1 executor must be updated");
+    false
+}
+
 fn shard_index(params: &Params) -> usize {
     params.shard.rsplit('-').next().and_then(|s| s.parse().ok()).unwrap_or(0)
 }
 
 fn part_l1x(ctl: &Ctl, rep: &mut Report) {
-    let depth = ctl.params.get_u64("depth", if ctl.params.thorough() { 5 } else { 4 }) as usize;
+    let depth = ctl.params.get_u64("depth", if ctl.params.thorough() { 6 } else { 5 }) as usize;
     let nshards = ctl.params.get_u64("nshards", 1).max(1) as usize;
     let me = shard_index(ctl.params) % nshards;
     let mut item = 0usize;
     let mut complete = true;
-    for (cname, cfg, spec) in exh_configs() {
+    // work items = (configuration, first letter, second letter); the prelude leaves a live
+    // session, so only drop / announce / End-of-RIB letters apply in first position
+    'outer: for (cname, cfg, spec) in exh_configs() {
         let alpha = exh_alphabet(&spec);
         let prelude = exh_prelude(&spec);
+        let run_seq = |rep: &mut Report, seq: &[usize]| -> (bool, bool) {
+            let mut ops = prelude.clone();
+            let mut tail_from = 0;
+            for (k, li) in seq.iter().enumerate() {
+                if k + 1 == seq.len() {
+                    tail_from = ops.len();
+                }
+                ops.extend(alpha[*li].1.iter().cloned());
+            }
+            let origin = format!("l1x cfg={} letters={}", cname, seq.iter().map(|i| alpha[*i].0).collect::<Vec<_>>().join(","));
+            let r = evaluate(ctl, rep, 1, &cfg, &ops, 0, &origin, tail_from);
+            if r.0 {
+                rep.count(&format!("l1x:sequences:d{}", seq.len()));
+            }
+            r
+        };
         for first in 0..alpha.len() {
-            item += 1;
-            if (item - 1) % nshards != me {
+            if !matches!(alpha[first].1[0], Op::Drop { .. } | Op::Announce { .. } | Op::Eor { .. }) {
                 continue;
             }
-            // iterative DFS over letter indices, first letter fixed
-            let mut stack: Vec<Vec<usize>> = vec![vec![first]];
-            while let Some(seq) = stack.pop() {
-                if !rep.in_budget() {
-                    complete = false;
-                    break;
-                }
-                let mut ops = prelude.clone();
-                let mut tail_from = 0;
-                for (k, li) in seq.iter().enumerate() {
-                    if k + 1 == seq.len() {
-                        tail_from = ops.len();
-                    }
-                    ops.extend(alpha[*li].1.iter().cloned());
-                }
-                let origin = format!("l1x cfg={} letters={}", cname, seq.iter().map(|i| alpha[*i].0).collect::<Vec<_>>().join(","));
-                let (applied, violated) = evaluate(ctl, rep, 1, &cfg, &ops, 0, &origin, tail_from);
-                if !applied {
+            // every shard needs the verdict of the one-letter sequence to know whether to extend it
+            let (applied, violated) = run_seq(rep, &[first]);
+            if !applied || violated || depth < 2 {
+                continue;
+            }
+            for second in 0..alpha.len() {
+                item += 1;
+                if (item - 1) % nshards != me {
                     continue;
                 }
-                rep.count(&format!("l1x:sequences:d{}", seq.len()));
-                if !violated && seq.len() < depth {
-                    for nx in (0..alpha.len()).rev() {
-                        let mut s = seq.clone();
-                        s.push(nx);
-                        stack.push(s);
+                let mut stack: Vec<Vec<usize>> = vec![vec![first, second]];
+                while let Some(seq) = stack.pop() {
+                    if !rep.in_budget() {
+                        complete = false;
+                        break 'outer;
+                    }
+                    let (applied, violated) = run_seq(rep, &seq);
+                    if applied && !violated && seq.len() < depth {
+                        for nx in (0..alpha.len()).rev() {
+                            let mut s = seq.clone();
+                            s.push(nx);
+                            stack.push(s);
+                        }
                     }
                 }
             }
@@ -1929,8 +2142,10 @@ fn part_l1x(ctl: &Ctl, rep: &mut Report) {
     }
     if complete {
         rep.count(&format!("l1x:d{}:complete-shards", depth));
+        rep.exhaustive = Some(true);
     } else {
         rep.count("l1x:budget-cut");
+        rep.exhaustive = Some(false);
     }
 }
 
@@ -1944,9 +2159,16 @@ fn part_random(ctl: &Ctl, rep: &mut Report, layer: u8) {
             rep.count(&format!("{}:budget-cut", lname));
             break;
         }
-        let cfg = gen_cfg(&mut rng, layer);
-        let len = rng.range(3, if layer == 1 { 24 } else { 14 }) as usize;
-        let ops = gen_ops(&mut rng, layer, len);
+        let (cfg, ops) = if rng.chance(1, 5) {
+            rep.count(&format!("{}:profile:llgr-cycle", lname));
+            gen_llgr_cycle(&mut rng, layer)
+        } else {
+            rep.count(&format!("{}:profile:free", lname));
+            let cfg = gen_cfg(&mut rng, layer);
+            let len = rng.range(3, if layer == 1 { 24 } else { 14 }) as usize;
+            let ops = gen_ops(&mut rng, layer, len);
+            (cfg, ops)
+        };
         let seed = rng.next_u64();
         if only.is_some_and(|o| o != idx) {
             continue;
@@ -1962,24 +2184,21 @@ fn run() {
     let mut rep = Report::new("C10", &params);
     let rt = tokio::runtime::Builder::new_current_thread().enable_all().build().expect("runtime");
     let part = params.get("part").unwrap_or("all").to_string();
-    let listener = if part == "l2" || part == "all" {
-        match rt.block_on(TcpListener::bind("127.0.0.1:0")) {
-            Ok(l) => Some(l),
-            Err(e) => {
-                rep.inconclusive(&format!("cannot bind a loopback listener: {}", e));
-                let _ = rep.finish();
-                return;
-            }
+    let listener = match rt.block_on(TcpListener::bind("127.0.0.1:0")) {
+        Ok(l) => Some(l),
+        Err(e) => {
+            rep.inconclusive(&format!("cannot bind a loopback listener: {}", e));
+            let _ = rep.finish();
+            return;
         }
-    } else {
-        None
     };
     {
         let ctl = Ctl { rt: &rt, listener: listener.as_ref(), params: &params };
-        if part == "l1x" || part == "all" {
+        let l1_ok = if part != "l2" { calibrate(&ctl, &mut rep) } else { false };
+        if l1_ok && (part == "l1x" || part == "all") {
             part_l1x(&ctl, &mut rep);
         }
-        if part == "l1r" || part == "all" {
+        if l1_ok && (part == "l1r" || part == "all") {
             part_random(&ctl, &mut rep, 1);
         }
         if part == "l2" || part == "all" {
